@@ -2,6 +2,8 @@ package main
 
 import (
 	"bytes"
+	"fmt"
+	"os"
 
 	"verifharness/memdb"
 
@@ -84,6 +86,12 @@ func (w *World) serializeFull(bl *block.Block, txs []*transaction.Transaction) [
 	})
 	w.bc.DB = save
 	if err == nil && !bytes.Equal(out, mine) {
+		for i, t := range txs {
+			t2 := &transaction.Transaction{}
+			e := t2.Deserialize(t.Serialize(), bl.Height >= config.HARDFORK_V2_HEIGHT)
+			fmt.Fprintf(os.Stderr, "tx %d v=%d %T ser=%x\n   redecode err=%v reser=%x\n", i, t.Version, t.Data, t.Serialize(), e, func() []byte { if e != nil { return nil }; return t2.Serialize() }())
+		}
+		fmt.Fprintf(os.Stderr, "mine=%x\nrepo=%x\n", mine, out)
 		panic("harness wire form differs from SerializeFullBlock")
 	}
 	return mine
